@@ -231,7 +231,7 @@ class EffectAnalysis:
                 elif isinstance(n.target, ast.Name):
                     if self._is_global_store(fi, n.target.id):
                         out.append(Effect(fi, n, n.target.id, n.target.id, "global", "augstore"))
-                    elif isinstance(n.op, ast.Add) is False or True:
+                    elif isinstance(n.op, (ast.Add, ast.Mult, ast.BitOr)) and isinstance(n.value, (ast.List, ast.ListComp, ast.Set, ast.Dict)):
                         # ``x += [..]`` mutates lists in place: classify the root like a mutator when x aliases something
                         c, p = self.classify_root(fi, n.target.id, binds)
                         if c not in ("fresh",) and self._may_be_mutable_alias(fi, n.target.id, binds):
